@@ -236,6 +236,11 @@ func runC13(col *Collector, tier string, seed int64) {
 			}
 		}
 	}
+	// an allowed non-zero exit earlier in the task must not make a later overrun tolerated
+	for _, kind := range []string{"sleep", "loop", "immune"} {
+		add(timedSpec{T: Ts[rng.Intn(len(Ts))], cmds: []timedCmd{{"quick", 3}, {kind, 0}, q}, allow: true, after: []timedCmd{q}}, "allowed-failure-then-overrun")
+		add(timedSpec{T: Ts[rng.Intn(len(Ts))], cmds: []timedCmd{q, {"quick", 200}, q, {kind, 0}, q}, allow: true}, "allowed-failure-then-overrun")
+	}
 	// hooks
 	for _, kind := range []string{"sleep", "loop"} {
 		add(timedSpec{T: Ts[rng.Intn(len(Ts))], before: []timedCmd{{kind, 0}}, cmds: []timedCmd{q}, after: []timedCmd{q}}, "before-hook")
